@@ -23,3 +23,11 @@ Definition sG_bound : qlit := QL 200 1.
 Definition sH_bound : qlit := QL 100 1.
 Lemma synth_round : chk_round Synth (bq_of sG_bound) (bq_of sH_bound) 40 = true.
 Proof. vm_cast_no_check (eq_refl true). Qed.
+From RD Require Import Model.CumData.
+Definition sBc_bound : qlit := QL 1 10000000000000000.    (* 1e-16 *)
+Definition sKc_bound : qlit := QL 2 1.
+Definition sGc_bound : qlit := QL 18 1.
+Lemma synth_cum : chk_cum Synth (bq_of sBc_bound) (bq_of sKc_bound) (bq_of sGc_bound) = true.
+Proof. vm_cast_no_check (eq_refl true). Qed.
+Lemma synth_lam_range : chk_lam_range synth_lam_val 0x1p40%float = true.
+Proof. vm_cast_no_check (eq_refl true). Qed.
